@@ -80,19 +80,27 @@ def reference(B, kind, M, X):
                 elif kind in ('gaussian_kde', 'lognormal_kde'):
                     bw2 = (4 / 3 / n_sim) ** 0.4 * v
                     yy = B.log(y) if kind == 'lognormal_kde' else y
+                    es = [-(yy - x) ** 2 / (2 * bw2) for x in xs]
+                    shift = 0
+                    if not B.symbolic:
+                        # float replay: the kernels may underflow; the same
+                        # quantity, shifted (log sum exp(e) = s + log sum
+                        # exp(e - s))
+                        shift = max(es)
                     acc = 0
-                    for x in xs:
-                        acc = acc + B.exp(-(yy - x) ** 2 / (2 * bw2))
-                    total = total + B.log(acc) - B.log(n_sim) \
+                    for e_ in es:
+                        acc = acc + B.exp(e_ - shift)
+                    total = total + shift + B.log(acc) - B.log(n_sim) \
                         - B.log(2 * B.pi) / 2 - B.log(bw2) / 2
                     if kind == 'lognormal_kde':
                         total = total - B.log(y)
                 elif kind == 'mixture':
+                    es = [-(y - mk) ** 2 / (2 * vk) for (mk, vk) in blocks]
+                    shift = 0 if B.symbolic else max(es)
                     acc = 0
-                    for (mk, vk) in blocks:
-                        acc = acc + B.exp(-(y - mk) ** 2 / (2 * vk)) \
-                            / B.sqrt(vk)
-                    total = total + B.log(acc) - B.log(2) \
+                    for e_, (mk, vk) in zip(es, blocks):
+                        acc = acc + B.exp(e_ - shift) / B.sqrt(vk)
+                    total = total + shift + B.log(acc) - B.log(2) \
                         - B.log(2 * B.pi) / 2
     return total
 
